@@ -179,6 +179,9 @@ func c16Run(c c16Case) []mc.Finding {
 	w.Sim.Seed(kit.Ann(kit.Owners(kit.Obj(kit.Leaf, "n1", "att-foreign"), kit.OwnerRef(pk, "q", "quid", true)), c16Marker, "dc"))
 	// ... of a previous incarnation of the target (same kind, same name, another UID), marker and all
 	w.Sim.Seed(kit.Ann(kit.Owners(kit.Obj(kit.Leaf, "n1", "att-previous-incarnation"), kit.OwnerRef(pk, "p", "puid-before", true)), c16Marker, "dc"))
+	// ... in ANOTHER NAMESPACE, carrying the target's UID in its controller reference and the marker (a copy made
+	// with its metadata intact): owner references do not reach across namespaces
+	w.Sim.Seed(kit.Ann(kit.Owners(kit.Obj(kit.Leaf, "n2", "att-other-namespace"), kit.OwnerRef(pk, "p", "puid", true)), c16Marker, "dc"))
 	// ... and of an object with the target's kind and name in another API group
 	w.Sim.Seed(kit.Ann(kit.Owners(kit.Obj(kit.Leaf, "n1", "att-namesake-group"), kit.M{"apiVersion": "elsewhere.io/v1", "kind": pk.Kind, "name": "p", "uid": "uid-elsewhere", "controller": true}), c16Marker, "dc"))
 	w.DeliverAll()
